@@ -71,6 +71,9 @@ theorem cmr_select_table_ok : cmrSelectTable.all (·.2) = true := by decide
 theorem listing_sorted_eq : listingSorted = listingSortedCurrent ∧ cmrListingSorted = cmrListingSortedCurrent := by decide
 /-- repeated names are dropped keeping the first (`list(dict.fromkeys(...))`) iff the model does -/
 theorem dedup_eq : dedupNames = dedupCurrent ∧ cmrDedupNames = dedupCurrent := by decide
+/-- … and they are recognised on the `pathlib.Path` objects, not on the entries as given (`selectFilesRaw … onNorm`) -/
+theorem dedup_on_normalised_eq :
+    dedupOnNormalised = dedupOnNormalisedCurrent ∧ cmrDedupOnNormalised = dedupOnNormalisedCurrent := by decide
 /-- what the subclasses forward is `classParams`; `CMRxReconDataset` is `cmrParse` / `cmrBlock` -/
 theorem class_table_ok : classTable.all (·.2) = true := by decide
 theorem cmr_table_ok : cmrTable.all (·.2) = true := by decide
